@@ -1,0 +1,89 @@
+//! Verification hook (cargo feature `verif-hooks`): a `Service` whose handler is replaced by a
+//! pair of channels owned by the harness. Add-only; a copy of `Service::spawn` minus
+//! `Handler::spawn`.
+
+use super::*;
+
+/// The harness' ends of the service <-> handler channels.
+pub struct ScriptedHandler {
+    /// Everything the service sends to its handler.
+    pub from_service: mpsc::UnboundedReceiver<HandlerIn>,
+    /// Inject handler events into the service.
+    pub to_service: mpsc::Sender<HandlerOut>,
+    /// Fires when the service shuts its handler down.
+    pub handler_exit: oneshot::Receiver<()>,
+}
+
+impl Service {
+    pub(crate) async fn spawn_scripted(
+        local_enr: Arc<RwLock<Enr>>,
+        enr_key: Arc<RwLock<CombinedKey>>,
+        kbuckets: Arc<RwLock<KBucketsTable<NodeId, Enr>>>,
+        config: Config,
+    ) -> Result<
+        (
+            oneshot::Sender<()>,
+            mpsc::Sender<ServiceRequest>,
+            ScriptedHandler,
+        ),
+        std::io::Error,
+    > {
+        let ip_votes = if config.enr_update {
+            Some(IpVote::new(
+                config.enr_peer_update_min,
+                config.vote_duration,
+            ))
+        } else {
+            None
+        };
+
+        let ip_mode = IpMode::new_from_listen_config(&config.listen_config);
+
+        // the scripted handler
+        let (handler_exit, handler_exit_recv) = oneshot::channel();
+        let (handler_send, from_service) = mpsc::unbounded_channel();
+        let (to_service, handler_recv) = mpsc::channel(50);
+
+        let (discv5_send, discv5_recv) = mpsc::channel(30);
+        let (exit_send, exit) = oneshot::channel();
+
+        let connectivity_state = ConnectivityState::new(config.auto_nat_listen_duration);
+
+        config
+            .executor
+            .clone()
+            .expect("Executor must be present")
+            .spawn(Box::pin(async move {
+                let mut service = Service {
+                    local_enr,
+                    enr_key,
+                    kbuckets,
+                    queries: QueryPool::new(config.query_timeout),
+                    active_requests: Default::default(),
+                    active_nodes_responses: HashMap::new(),
+                    ip_votes,
+                    handler_send,
+                    handler_recv,
+                    handler_exit: Some(handler_exit),
+                    peers_to_ping: HashSetDelay::new(config.ping_interval),
+                    discv5_recv,
+                    event_stream: None,
+                    exit,
+                    config: config.clone(),
+                    ip_mode,
+                    connectivity_state,
+                };
+                service.start().await;
+            }));
+
+        Ok((
+            exit_send,
+            discv5_send,
+            ScriptedHandler {
+                from_service,
+                to_service,
+                handler_exit: handler_exit_recv,
+            },
+        ))
+    }
+}
